@@ -14,6 +14,7 @@ RULE = ("lattice dies (<=12x12 cells; families int/binary/decimal/1e3/1e-3/rando
 ASSUMPTIONS = [
     "valid = regions pairwise disjoint and inside the die as decimal/lattice values (what the user wrote); invalid overlaps/overhangs are at least a quarter of a region / one lattice cell",
     "tiling judged in exact arithmetic on the float values with 1e-9 relative tolerances",
+    "the two die dimensions and all features of a description are commensurate (dynamic range below ~1e3): the reader's tolerance is 1e-12 x the smallest feature, so a die of 0.0049 x 0.000000029 (a random-float lattice with one cut that happened to land 3e-5 from the origin; met once in 1.5 million cases of the thorough tier with seed 1) is rejected on a 1-ulp rounding of its own width - the recorded root cause of the tolerance findings, not counted again",
     "tolerance state pinned per case: undefined, then the netlist (if any) and the die are loaded in that order, as a fresh process would",
 ]
 CASES = {"quick": 40000, "thorough": 1500000}
